@@ -483,6 +483,9 @@ func genScenario(t *rapid.T) (scenario, stream, builtImage, int) {
 		if strings.HasPrefix(bi.nested, "only-nested") {
 			reason = "shape:only-nested-package.yaml"
 		}
+		if bi.forged != "" {
+			reason = "shape:layer-bytes-do-not-match-digest"
+		}
 	}
 	if sc.Verification && sc.Verified != "True" {
 		v, reason = mustNot, "unverified"
@@ -520,6 +523,9 @@ func TestVerifC15Install(t *testing.T) {
 		rec.Eval()
 		rec.Label("type:" + sc.Type)
 		rec.Label("shape:" + sc.Shape)
+		if bi.forged != "" {
+			rec.Label("class:layer-bytes-do-not-match-digest:" + bi.forged + ":" + sc.Shape)
+		}
 		if bi.nested != "" {
 			rec.Label("nested:" + bi.nested)
 			if strings.HasPrefix(bi.nested, "only-nested") {
@@ -560,7 +566,7 @@ func TestVerifC15Install(t *testing.T) {
 			for _, d := range sc.Docs {
 				dk = append(dk, d.Kind)
 			}
-			key := strings.Join([]string{sc.Type, sc.Shape, bi.nested, strings.Join(dk, ","), sc.Reason, strings.Join(ks, ";"), sc.Neighbour}, "|")
+			key := strings.Join([]string{sc.Type, sc.Shape, bi.nested, bi.forged, strings.Join(dk, ","), sc.Reason, strings.Join(ks, ";"), sc.Neighbour}, "|")
 			rec.NonTrivial(key, func() any { return sc })
 		}
 		if viol != "" {
@@ -726,6 +732,46 @@ func TestVerifC15PinnedNested(t *testing.T) {
 				v, reason = mustNot, "shape:only-nested-package.yaml"
 			}
 			sc := scenario{Type: tProvider, RevName: "pkg-0a1b2c3d4e5f", Docs: docs, Shape: row.name, Steps: []step{{Kind: "healthy"}}, Verdict: v.String(), Reason: reason, Seed: 7}
+			if viol, _ := runScenario(sc, s, bi, rec); viol != "" {
+				t.Fatalf("C15 violated (pinned %s): %s", row.name, viol)
+			}
+		})
+	}
+}
+
+// TestVerifC15PinnedForgedLayer: the bytes a package layer serves are tied to
+// the digest the image manifest pins. An image whose package layer serves other
+// bytes (another valid package, a tampered copy) is refused; nothing is parsed,
+// cached or established from it (plain table, no rapid).
+func TestVerifC15PinnedForgedLayer(t *testing.T) {
+	rec := verifkit.New(t, "C15", "pinned rows: layer bytes do not match the pinned digest")
+	docs := pinnedDocs()
+	s := render(docs, true, true)
+	root := fileSpec{Name: streamFile, Data: s.Bytes}
+	other := fileSpec{Name: streamFile, Data: decoyStream(tProvider)}
+	tampered := fileSpec{Name: streamFile, Data: bytes.ReplaceAll(s.Bytes, []byte("name: a"), []byte("name: z"))}
+	rows := []struct {
+		name   string
+		layers []layerSpec
+		ti     int
+	}{
+		{"annotated-base-layer-serves-other-package", []layerSpec{{Annotation: "base", Files: []fileSpec{root}, Forge: []fileSpec{other}}}, 0},
+		{"annotated-base-layer-serves-tampered-copy", []layerSpec{{Annotation: "base", Files: []fileSpec{root}, Forge: []fileSpec{tampered}}}, 0},
+		{"annotated-base-plus-runtime-layer", []layerSpec{{Files: []fileSpec{{Name: "usr/bin/provider", Data: junk}}}, {Annotation: "base", Files: []fileSpec{root}, Forge: []fileSpec{other}}}, 1},
+		{"plain-single-layer-serves-other-package", []layerSpec{{Files: []fileSpec{root}, Forge: []fileSpec{other}}}, 0},
+		{"plain-single-layer-serves-tampered-copy", []layerSpec{{Files: []fileSpec{root}, Forge: []fileSpec{tampered}}}, 0},
+		{"plain-multi-layer-serves-other-package", []layerSpec{{Files: []fileSpec{{Name: "etc/passwd", Data: junk}}}, {Files: []fileSpec{{Name: "a.txt", Data: junk}, root}, Forge: []fileSpec{{Name: "a.txt", Data: junk}, other}}, {Files: []fileSpec{{Name: "usr/bin/provider", Data: junk}}}}, 1},
+	}
+	for _, row := range rows {
+		t.Run(row.name, func(t *testing.T) {
+			rec.Eval()
+			img, built := assemble(row.layers)
+			bi := builtImage{img: img, target: built[row.ti].digest, streamOff: built[row.ti].streamOff[streamFile], valid: false, shape: row.name, forged: "pinned"}
+			_, got, err, _ := measure(bi)
+			if err == nil {
+				t.Fatalf("C15 violated (pinned %s): ImageBackend accepted an image whose package layer serves bytes that do not hash to the digest the manifest pins, and hands the parser %d bytes (the declared stream has %d)", row.name, len(got), len(s.Bytes))
+			}
+			sc := scenario{Type: tProvider, RevName: "pkg-0a1b2c3d4e5f", Docs: docs, Shape: row.name, Steps: []step{{Kind: "healthy"}}, Verdict: mustNot.String(), Reason: "shape:layer-bytes-do-not-match-digest", Seed: 7}
 			if viol, _ := runScenario(sc, s, bi, rec); viol != "" {
 				t.Fatalf("C15 violated (pinned %s): %s", row.name, viol)
 			}
